@@ -91,7 +91,12 @@ func safely(f func() error) (err error) {
 	return f()
 }
 
+// the pattern most recently compiled: the context reported when the real engine panics in an unguarded call
+var lastPattern string
+var lastOptions int
+
 func compile(text string, opts regexp2.RegexOptions, extra ...regexp2.CompileOption) (re *regexp2.Regexp, err error) {
+	lastPattern, lastOptions = text, int(opts)
 	err = safely(func() error {
 		var e error
 		all := append([]regexp2.CompileOption{opts}, extra...)
